@@ -238,6 +238,8 @@ def r7(tree, rep):
 
 
 def run(tree, rep, tier):
+    from .. import round9 as _r9
+    _r9.app_not_called_mid_transition(tree, rep, "C14.R9")
     r6(tree, rep)
     from .. import sharedstate
     sharedstate.check(tree, rep, "C14.R0")
